@@ -199,6 +199,10 @@ func cycleCases(thorough bool) []cycleCase {
 			out = append(out, cycleCase{id: fmt.Sprintf("chain/%s/1100", k), fs: chainDoc(k, 1100, "x-defs"), expect: "depth-error", kind: k})
 		}
 	}
+	// breadth is not depth: more sibling references in one place than the depth limit allows levels
+	for _, n := range []int{1100, 2500} {
+		out = append(out, cycleCase{id: fmt.Sprintf("wide/%d", n), fs: FileSet{Root: "root.yaml", Files: map[string]string{"root.yaml": wideDoc(n)}}, expect: "wide-generates", kind: "schema"})
+	}
 	return out
 }
 
@@ -312,6 +316,13 @@ func (m *mon) cycleInProcess(c cycleCase, verbose bool) *Outcome {
 			return out
 		}
 		r.Count("must-generate/"+c.kind+"/generated", 1)
+	case c.expect == "wide-generates":
+		if !out.Parsed() || out.GenStage != "ok" {
+			txt := out.ParseText() + out.GenText()
+			r.Violate("flat-document-rejected:"+errClass(txt), fmt.Sprintf("%s: a flat document with many sibling references (nesting depth 2) does not generate: %s", c.id, tail(txt, 300)), w)
+			return out
+		}
+		r.Count("wide/generated", 1)
 	case c.expect == "no-crash":
 		res := "generates"
 		if !out.Parsed() {
